@@ -1170,6 +1170,93 @@ fn drive(seed: u64, tier: &str, parts: &str, emit_all: &mut dyn FnMut(&Value)) {
         emit_if(c06, emit_all, &rd_case(7, &q, "none", 2048));
     }
 
+    // (8) compressed packets of every kind (the writers only compress chunk packets): compression flag,
+    //     body = Huffman stream (library compressor) of a short plain body -- the decoder stops at EOF --
+    //     followed by arbitrary filler up to each raw-length boundary, so that length checks on the raw
+    //     datagram (0.7 token request 519, the 1400 limit) and on the decompressed body (control byte,
+    //     token / response-token tails, close reason, chunk headers) fall on different sides; every hint.
+    {
+        let mut plains: Vec<(bool, Vec<u8>)> = vec![(true, vec![])];
+        for c in 0u8..=6 {
+            for n in 1..=6 {
+                plains.push((true, [c, 1, 2, 3, 4, 5][..n].to_vec()));
+            }
+            if thorough {
+                for n in 2..=6 {
+                    plains.push((true, [c, 0, 0, 0, 0, 0][..n].to_vec()));
+                }
+            }
+        }
+        for n in 3..=7 {
+            plains.push((true, [4u8, b'a', 0, 1, 2, 3, 4][..n].to_vec()));
+        }
+        for n in 5..=9 {
+            plains.push((true, [1u8, b'T', b'K', b'E', b'N', 1, 2, 3, 4][..n].to_vec()));
+        }
+        plains.push((true, vec![5, 0xff, 0xff, 0xff, 0xff]));
+        plains.push((true, vec![1, 0xff, 0xff, 0xff, 0xff]));
+        for area in [vec![], vec![0u8, 1, 7], vec![0x40, 1, 0, 7]] {
+            for n in 0..=5 {
+                let mut a = area.clone();
+                a.extend_from_slice(&[9u8, 8, 7, 6, 5][..n]);
+                plains.push((false, a));
+            }
+        }
+        for v in [6u64, 7] {
+            let lens: &[usize] = match (v, thorough) {
+                (6, false) => &[0, 1400, 1401],
+                (6, true) => &[0, 9, 1399, 1400, 1401],
+                (_, false) => &[0, 518, 519, 1400, 1401],
+                (_, true) => &[0, 518, 519, 520, 1399, 1400, 1401],
+            };
+            let tokens: &[[u8; 4]] = if v == 7 { &[[0xff; 4], [1, 2, 3, 4]] } else { &[[0; 4]] };
+            let hints: &[&str] = if v == 6 { &["none", "true", "false"] } else { &["none"] };
+            for (ctrl, plain) in plains.iter() {
+                let z = HUFFMAN.compress_into_vec(plain);
+                for tok in tokens {
+                    for &len in lens {
+                        let mut dg = if v == 6 {
+                            vec![if *ctrl { 0x90u8 } else { 0x80 }, 0, if *ctrl { 0 } else { 1 }]
+                        } else {
+                            let mut h = vec![if *ctrl { 0x14u8 } else { 0x10 }, 0, if *ctrl { 0 } else { 1 }];
+                            h.extend_from_slice(tok);
+                            h
+                        };
+                        dg.extend_from_slice(&z);
+                        let mut j = 0usize;
+                        while dg.len() < len {
+                            dg.push(((j * 37 + 11) & 0xff) as u8);
+                            j += 1;
+                        }
+                        for h in hints {
+                            emit_if(c06, emit_all, &rd_case(v, &dg, h, 2048));
+                        }
+                    }
+                }
+            }
+        }
+        // decompressed length on both sides of the body limit (1397 / 1393) while the raw datagram is tiny
+        for v in [6u64, 7] {
+            let hs = if v == 6 { 3 } else { 7 };
+            for n in [1392usize, 1393, 1394, 1396, 1397, 1398] {
+                let z = HUFFMAN.compress_into_vec(&vec![0u8; n]);
+                for ctrl in [false, true] {
+                    let mut dg = vec![0u8; hs];
+                    dg[0] = match (v, ctrl) {
+                        (6, false) => 0x80,
+                        (6, true) => 0x90,
+                        (_, false) => 0x10,
+                        (_, true) => 0x14,
+                    };
+                    dg.extend_from_slice(&z);
+                    for cap in [1400usize, 4096] {
+                        emit_if(c06, emit_all, &rd_case(v, &dg, if v == 6 { "true" } else { "none" }, cap));
+                    }
+                }
+            }
+        }
+    }
+
     // (6) headers: random in-range field tuples and random byte patterns
     for _ in 0..n_hdr {
         let v = if g.rng.gen_bool(0.5) { 6 } else { 7 };
